@@ -10,6 +10,7 @@ package c11
 import (
 	"encoding/json"
 	"fmt"
+	"math/rand"
 	"os"
 	"os/exec"
 	"path/filepath"
@@ -30,6 +31,9 @@ import (
 type tmpl struct {
 	ID  string `json:"id"`
 	Seq string `json:"seq"`
+	// Ann: annotations the template already carries (a template that is itself the product of an
+	// earlier PCR describes that PCR under the very names this one writes)
+	Ann map[string]any `json:"ann,omitempty"`
 }
 
 type outRec struct {
@@ -109,7 +113,25 @@ func convert(rs obiseq.BioSequenceSlice) []outRec {
 }
 
 func bioseq(t tmpl) *obiseq.BioSequence {
-	return obiseq.NewBioSequence(t.ID, []byte(t.Seq), "")
+	s := obiseq.NewBioSequence(t.ID, []byte(t.Seq), "")
+	for k, v := range t.Ann {
+		if f, ok := v.(float64); ok && f == float64(int(f)) { // after the JSON round trip of a helper job
+			v = int(f)
+		}
+		s.SetAttribute(k, v)
+	}
+	return s
+}
+
+// earlierPCR: the annotations left on a template by a previous amplification.
+func earlierPCR(r *rand.Rand) map[string]any {
+	return map[string]any{
+		"direction":      []string{"forward", "reverse"}[r.Intn(2)],
+		"forward_primer": "ggggggggggggggg", "reverse_primer": "ccccccccccccccc",
+		"forward_match": "ggggggggagggggg", "reverse_match": "cccccccccccctcc",
+		"forward_error": 1 + r.Intn(3), "reverse_error": 4 + r.Intn(3),
+		"count": 1 + r.Intn(5),
+	}
 }
 
 // runJob executes the job in this process.
@@ -728,7 +750,7 @@ func init() {
 		Level: "exploration",
 		Rule: "each case = one option vector (IUPAC primers 4-30 nt, error budgets 0-3 per primer, min/max length, flanks with/without only-complete, linear/circular) and several a/c/g/t templates of 30-600 nt with 0-4 planted priming-site pairs (0..e+1 mismatches per site, distance at min-1/min/max/max+1/1/0/overlapping, constructs at the very ends or across the origin, either strand); " +
 			"the real obiapat.PCRSim / PCRSlice / PCRSliceWorker and the obipcr command are executed and compared with a brute-force matcher (IUPAC set inclusion per position, both strands, every pair of sites), with the run on the reverse-complemented template, on rotated circular templates, one-by-one vs batch, obipcr with and without --fragmented on templates longer than 1000 x max-length, and ASan / UBSan(shift,bounds,signed-integer-overflow,integer-divide-by-zero,null) builds of obipcr vs the normal build. " +
-			"Added later: concurrent sub-check (one PCRSliceWorker shared by 2-16 goroutines), end to end: primers decorated with '#' marks when the budget is 0, templates that are exactly one product (0-2 flanking bases). " +
+			"Added later: concurrent sub-check (one PCRSliceWorker shared by 2-16 goroutines), end to end: primers decorated with '#' marks when the budget is 0, templates that are exactly one product (0-2 flanking bases). Templates carrying the annotations of an earlier PCR under the names this one writes (nested PCR). " +
 			"distinct_nontrivial = distinct (sub-check, pair status required/optional/none with reason, geometry incl. strand, linear/circular inner/wrapping, unequal primer lengths, flank clipping, mismatches of both sites, flank mode, length class relative to the bounds, site at position 0 / at the end) classes of site pairs actually present in executed templates, plus batch shapes and rotation classes",
 		Assume: []string{
 			"templates are over a,c,g,t (what a template ambiguity code matches is not fixed by the property)",
